@@ -201,6 +201,8 @@ func (e *c11Env) stopOn(done <-chan struct{}) chan struct{} {
 func (e *c11Env) second(done <-chan struct{}, cancel func(), responder string, arrivals []peer.ID, castMark, runMark int, rerr *error) string {
 	cm := e.cm
 	note := ""
+	quiet := strings.HasPrefix(responder, "~") // nothing is heard for 3×CoordinatorTimeout before the claimant speaks
+	responder = strings.TrimPrefix(responder, "~")
 	nInit := func() int {
 		n := 0
 		for _, b := range cm.casts[castMark:] {
@@ -241,6 +243,12 @@ func (e *c11Env) second(done <-chan struct{}, cancel func(), responder string, a
 			}
 		}
 	case "wait":
+		if quiet && !bully {
+			select {
+			case <-time.After(3 * c11ShortTimeout):
+			case <-done:
+			}
+		}
 		if responder != "-" {
 			stop := e.stopOn(done)
 			from := c07Peer(responder)
@@ -320,6 +328,9 @@ func c11ErrClass(err error) string {
 	}
 }
 
+// c11ShortTimeout: the CoordinatorTimeout of the `~` scenarios (TssTimeout stays at one hour)
+const c11ShortTimeout = 40 * time.Millisecond
+
 func c11Nil(context.Context) error { return nil }
 
 func c11Await(ch <-chan struct{}) {
@@ -344,7 +355,10 @@ func init() {
 		t := int(u64(a[1]))
 		sid := c07Sid(a[2])
 		holders := c07PeerList(a[3])
-		e := c11NewEnv(self, t, sid, holders, true, a[5] != "-")
+		e := c11NewEnv(self, t, sid, holders, true, a[5] != "-" && !strings.HasPrefix(a[5], "~"))
+		if strings.HasPrefix(a[5], "~") {
+			e.co.CoordinatorTimeout = c11ShortTimeout
+		}
 		e.proc.outcomes = []func(context.Context) error{c11Nil, c11Nil}
 		err := c11Build(a[4], self)
 		ctx, cancel := context.WithCancel(context.Background())
@@ -366,7 +380,7 @@ func init() {
 		t := int(u64(a[1]))
 		sid := c07Sid(a[2])
 		holders := c07PeerList(a[3])
-		e := c11NewEnv(self, t, sid, holders, a[4] == "1", a[6] != "-")
+		e := c11NewEnv(self, t, sid, holders, a[4] == "1", a[6] != "-" && !strings.HasPrefix(a[6], "~"))
 		ord := c07Order(holders, sid)
 		if len(ord) == 0 {
 			return "noholders"
@@ -399,6 +413,9 @@ func init() {
 			return c11Leaf(code, self)
 		}
 		e.proc.onEnter = func(i int) {
+			if i == 0 && strings.HasPrefix(a[6], "~") { // the first attempt's own wait keeps its one-hour ticker
+				e.co.CoordinatorTimeout = c11ShortTimeout
+			}
 			if i == 0 && !silent && !withFail {
 				setMarks()
 			}
@@ -547,6 +564,14 @@ func genC11(g *G) {
 			for _, sh := range []string{"[[t" + others[0] + "],[c" + others[1] + "]]", "[[s],[m]]", "[[[s]],o,[[s]]]", "[n]", "[[o],[o]]"} {
 				g.Emit("handle", c07Tok(self), itoa(c.t), hx([]byte(c.sid)), c.holders, sh, "-", joinOr(others, ","))
 			}
+		}
+	}
+	// the left-out relayer hears nothing for 3×CoordinatorTimeout (40 ms; TssTimeout 1 h), then the replacement start arrives
+	for i := 0; i < g.Count(3, 24); i++ {
+		sh := c11Shapes("s")[i%5]
+		g.Emit("handle", "0", "1", hx([]byte("m1")), "0,1,2,3", sh, "~"+itoa(1+i%3), "1,2,3")
+		if i%3 == 0 {
+			g.Emit("exec", []string{"0", "2", "1"}[(i/3)%3], "1", hx([]byte("m1")), "0,1,2,3", "1", "s", "~3", "1,2,3")
 		}
 	}
 	// a claimant announces itself during the re-election: higher / lower than this relayer among the candidates
